@@ -56,9 +56,9 @@ GateHooks  == {"before_start", "before_spawn", "after_spawn", "after_start"}
 
 NoCtx == [on |-> FALSE, cid |-> "", cmd |-> "", lname |-> "", hasname |-> FALSE, pattern |-> FALSE, pid |-> -1, signum |-> -1,
           children |-> FALSE, recursive |-> FALSE, childpid |-> -1, G |-> -1, nostop |-> FALSE,
-          graceful |-> TRUE, cast |-> FALSE, waiting |-> FALSE, busy |-> FALSE]
+          graceful |-> TRUE, seq |-> FALSE, cast |-> FALSE, waiting |-> FALSE, busy |-> FALSE]
 NoOp  == [slot |-> "", cmd |-> "", lname |-> "", hasname |-> FALSE, pattern |-> FALSE, mark |-> 0, t0 |-> 0, faulty |-> FALSE,
-          gatefail |-> {}, nostop |-> FALSE, graceful |-> TRUE]
+          gatefail |-> {}, nostop |-> FALSE, graceful |-> TRUE, seq |-> FALSE]
 NoTerm == [open |-> FALSE, sig |-> 0, t0 |-> 0, G |-> 0, killed |-> FALSE, kids |-> {}]
 
 GhostInit ==
@@ -100,7 +100,8 @@ GhostInit ==
     par0     |-> <<>>,         \* pid -> the parent it was forked by (0 for the daemon's own children)
     lastStatus |-> <<>>,       \* pid -> result of the last status() read ("" none)
     pruned   |-> {},           \* pids dropped from tracking right after a dead status read, never reaped (D4)
-    detached |-> {},           \* pids forgotten after a failing after_spawn hook (D3)
+    detached |-> {},           \* pids forgotten after a failing after_spawn hook, stop signal attempted (D3)
+    detPend  |-> {},           \* after_spawn failed; the attempt to signal the (still tracked) pid not yet seen
     vetoRaise |-> {},          \* pids whose before_signal hook RAISED with its ignore flag off (D11)
     reloaded |-> FALSE,        \* a reloadconfig operation has run
     drifted  |-> FALSE,        \* ... and it put two names that are equal ignoring case into the list (D9R)
@@ -172,7 +173,7 @@ Upd(g, o, ln, o2) ==
                                hasname |-> ln.q.hasname, pattern |-> ln.q.pattern, pid |-> ln.q.pid, signum |-> ln.q.signum,
                                children |-> ln.q.children, recursive |-> ln.q.recursive,
                                childpid |-> ln.q.childpid, G |-> ln.q.G, nostop |-> ln.q.nostop,
-                               graceful |-> ln.q.graceful, cast |-> ln.q.cast, waiting |-> ln.q.waiting,
+                               graceful |-> ln.q.graceful, seq |-> ln.q.sequential, cast |-> ln.q.cast, waiting |-> ln.q.waiting,
                                busy |-> o2.slot # ""]
                 ELSE IF ln.cb = 0 \/ ln.k = "reqend" THEN NoCtx ELSE g.ctx
       reqs1  == IF isReq
@@ -191,7 +192,8 @@ Upd(g, o, ln, o2) ==
                              hasname |-> g.ctx.on /\ g.ctx.hasname, pattern |-> g.ctx.on /\ g.ctx.pattern,
                              mark |-> NK(o), t0 |-> ln.t,
                              faulty |-> FALSE, gatefail |-> {},
-                             nostop |-> g.ctx.on /\ g.ctx.nostop, graceful |-> ~g.ctx.on \/ g.ctx.graceful]
+                             nostop |-> g.ctx.on /\ g.ctx.nostop, graceful |-> ~g.ctx.on \/ g.ctx.graceful,
+                             seq |-> g.ctx.on /\ g.ctx.seq]
                 ELSE IF rel THEN NoOp
                 ELSE [g.op EXCEPT !.faulty = @ \/ ln.k \in {"spawnfail", "exc", "block"}
                                               \/ (ln.k = "hook" /\ ln.r # "true"),
@@ -308,7 +310,13 @@ Upd(g, o, ln, o2) ==
                                           /\ \/ (p \in 1..Len(g.lastStatus) /\ g.lastStatus[p] \in {"zombie", "gone"})
                                              \/ p \in g.killed }     \* (surplus / expired worker popped after its kill)
                           IN ((@ \cup left) \ g.detached) \ (IF isEv /\ ln.x = "reap" THEN {ln.p} ELSE {}),
-               !.detached = IF ln.k = "hook" /\ ln.x = "after_spawn" /\ ~Effective(g, ln.w, "after_spawn", ln.r)
+               \* D3 as coded: kill_process is called while the pid is still in the table, so send_signal consults
+               \* before_signal and (unless vetoed) sends the stop signal; only then is the pid forgotten.  A pid
+               \* forgotten without that attempt is NOT this finding.
+               !.detPend = IF ln.k = "hook" /\ ln.x = "after_spawn" /\ ~Effective(g, ln.w, "after_spawn", ln.r)
+                           THEN @ \cup {ln.p} ELSE @,
+               !.detached = IF (ln.k = "signal" \/ (ln.k = "hook" /\ ln.x = "before_signal")) /\ ln.p \in g.detPend
+                               /\ ln.p \in AllTracked(o)       \* (Process.stop()'s late SIGTERM does not count)
                             THEN @ \cup {ln.p} ELSE @,
                !.vetoRaise = IF ln.k = "hook" /\ ln.x = "before_signal"
                              THEN (IF ln.r = "raise" /\ ~HookCfg(g, ln.w, "before_signal").ig THEN {ln.p} ELSE {})
@@ -353,9 +361,14 @@ C02_complete(g2, o, o2) ==
       /\ o2.w[i].pr = <<>>
       /\ \A p \in OwnedBy(g2, o2, o2.w[i].ln) : KSt(o2, p) = "reaped"
 C02_opdone(g, o, o2) ==
-   (o.slot # "" /\ o2.slot # o.slot /\ g.op.cmd = "stop" /\ g.op.slot \in {"watcher_stop", "arbiter_stop_watchers"})
-   => \A i \in WIdx(o2) : (~g.op.hasname \/ g.op.lname = o2.w[i].ln) /\ ~o2.w[i].od
-          => o2.w[i].st = "stopped" /\ o2.w[i].pr = <<>>
+   /\ (o.slot # "" /\ o2.slot # o.slot /\ g.op.cmd = "stop" /\ g.op.slot \in {"watcher_stop", "arbiter_stop_watchers"})
+      => \A i \in WIdx(o2) : (~g.op.hasname \/ g.op.lname = o2.w[i].ln) /\ ~o2.w[i].od
+             => o2.w[i].st = "stopped" /\ o2.w[i].pr = <<>>
+   \* rm (without nostop): when rm_watcher lets go of the slot the watcher it took out of the directory has been
+   \* stopped: no worker left (a removed watcher stays in the projection for as long as it has workers)
+   /\ (o.slot = "arbiter_rm_watcher" /\ o2.slot # o.slot /\ g.op.cmd = "rm" /\ ~g.op.nostop)
+      => \A i \in WIdx(o2) : (o2.w[i].ln = g.op.lname /\ ~o2.w[i].od /\ \A j \in 1..Len(o2.wl) : o2.wl[j] # o2.w[i].n)
+             => o2.w[i].st = "stopped" /\ o2.w[i].pr = <<>>
 Started(o, o2) == { i \in WIdx(o2) : o2.w[i].st \in {"starting", "active"} /\
                       \E j \in WIdx(o) : o.w[j].ln = o2.w[i].ln /\ o.w[j].st = "stopped" }
 C02_stays(g, o, ln, o2) ==
@@ -391,6 +404,12 @@ C03_prompt(g, o, ln) ==
             => g.t <= g.term[p].t0 + g.term[p].G + 101
 C03_kids(g, g2, o, o2) ==
    /\ \A p \in StopFlips(o, o2) : \A c \in g2.term[p].kids : <<c, g2.term[p].sig>> \in g.csigs
+\* the signal a termination begins with is the one the request named (kill with a signum), otherwise the watcher's
+\* configured stop signal (0 = a before_signal hook vetoed it: C14's business)
+C03_stopsig(g, g2, o, o2) ==
+   \A p \in StopFlips(o, o2) : g2.term[p].sig # 0 =>
+      g2.term[p].sig = IF g.ctx.on /\ g.ctx.cmd = "kill" /\ g.ctx.signum >= 0 THEN g.ctx.signum
+                       ELSE WOfPid(o2, p).ssig
 
 \* ---------------- C04 (judged on `probe` lines: what the read-only requests SAY vs the kernel table)
 Mine(g, o, lname) == { p \in 1..NK(o) : OwnerOf(g, p) = lname /\ KSt(o, p) = "run" /\ p \notin g.released
@@ -616,6 +635,7 @@ Clauses(g, o, ln, o2, g2) ==
     C02_stays |-> C02_stays(g, o, ln, o2),
     C03_first |-> C03_first(g, o, ln), C03_notearly |-> C03_notearly(g, ln), C03_notdead |-> C03_notdead(g, ln),
     C03_prompt |-> C03_prompt(g, o, ln), C03_kids |-> C03_kids(g, g2, o, o2),
+    C03_stopsig |-> C03_stopsig(g, g2, o, o2),
     C04_list |-> C04_list(g2, o2, ln), C04_count |-> C04_count(g2, o2, ln), C04_owned |-> C04_owned(g2, o2, ln),
     C04_status |-> C04_status(o, ln, o2),
     C05_noblock |-> C05_noblock(ln), C05_readnow |-> C05_readnow(g, ln), C05_bound |-> C05_bound(g, o, ln),
@@ -667,7 +687,13 @@ KF(c, g, o, ln, o2, g2) ==
                /\ \A p \in OwnedBy(g, o2, lname) : KSt(o2, p) = "run" => p \in g2.detached
          THEN "D3" ELSE ""
     [] c = "C05_noblock" ->
-         IF ln.p \in 1..Len(g.term) /\ g.term[ln.p].open THEN "D1"
+         \* D1 as coded: the unguarded reap after a kill sits in _stop() (stop, restart, non-graceful reload, rm,
+         \* quit) and in the sequential reload loop; the surplus / expiry paths of manage_processes are guarded
+         IF ln.p \in 1..Len(g.term) /\ g.term[ln.p].open
+            /\ \/ o.slot \in {"watcher_stop", "watcher_restart", "arbiter_stop_watchers", "arbiter_restart",
+                              "arbiter_stop", "arbiter_rm_watcher"}
+               \/ (o.slot \in {"watcher_reload", "arbiter_reload"} /\ (~g.op.graceful \/ g.op.seq))
+         THEN "D1"
          ELSE IF g.op.cmd = "start" /\ g.op.slot \in {"watcher_start", "arbiter_start_watchers"} THEN "D2"
          ELSE ""
     [] c = "C04_count" ->
